@@ -939,8 +939,12 @@ pub fn gen_disparity(rng: &mut Rng) -> System {
 /// Arbitrary well-typed input: random kinds, aliased / out-of-range ids, special floats, odd configs.
 pub fn gen_malformed(rng: &mut Rng) -> System {
     use crate::gen_sys::*;
-    let nvars = rng.range(0, 10);
-    let ncons = rng.range(0, 6);
+    // one malformed system in eight is LARGE (40 ... 300 variables): validation code with a
+    // size-dependent fast path (a lookup table above some count) only runs there, and the malformed
+    // guess lists (missing, permuted, duplicate, sparse ids) are then more frequent
+    let big = rng.chance(1, 8);
+    let nvars = if big { *rng.pick(&[40usize, 70, 130, 300]) } else { rng.range(0, 10) };
+    let ncons = if big { rng.range(0, 12) } else { rng.range(0, 6) };
     let scale = *rng.pick(&SCALES);
     let mut reqs: Vec<ConstraintRequest> = Vec::new();
     for _ in 0..ncons {
@@ -968,8 +972,13 @@ pub fn gen_malformed(rng: &mut Rng) -> System {
             )
         })
         .collect();
-    let roll = rng.below(20);
-    if roll == 0 && !guesses.is_empty() {
+    let roll = if big { rng.below(8) } else { rng.below(20) };
+    if roll == 5 && !guesses.is_empty() {
+        // a stale / sparse id in the guess list that NO request mentions (accepted by the original:
+        // only requests are validated against the guess ids)
+        let k = rng.below(guesses.len());
+        guesses[k].0 = (nvars + 5 + rng.below(2000)) as u32;
+    } else if roll == 0 && !guesses.is_empty() {
         guesses.pop(); // missing guess
     } else if roll == 1 && guesses.len() >= 2 {
         guesses.swap(0, 1); // permuted ids
@@ -989,7 +998,7 @@ pub fn gen_malformed(rng: &mut Rng) -> System {
         let arc = DatumCircularArc { center: DatumPoint::new_xy(0, 1), start: DatumPoint::new_xy(2, 3), end: DatumPoint::new_xy(n + 1, n + 2) };
         reqs.insert(0, ConstraintRequest::new(Constraint::PointArcCoincident(arc, DatumPoint::new_xy(4, 5)), 0));
     }
-    let mut s = System::default_cfg(reqs, guesses, "malformed");
+    let mut s = System::default_cfg(reqs, guesses, if big { "malformed-large" } else { "malformed" });
     s.max_iterations = *rng.pick(&[0, 1, 2, 5, 35, 35, 35, 200]);
     s.convergence_tolerance = *rng.pick(&[1e-8, 1e-8, 1e-12, 1e-3, 0.0, 0.5]);
     s.step_tolerance = *rng.pick(&[1e-12, 1e-12, 1e-9, 0.0, 1e-3]);
